@@ -123,42 +123,53 @@ namespace nmtools::view
     template <typename array_t, typename axis_t, typename dtype_t=none_t, typename keepdims_t=meta::false_type>
     constexpr auto mean(const array_t& array, const axis_t& axis, dtype_t dtype=dtype_t{}, keepdims_t keepdims=keepdims_t{})
     {
-        // note that this mean view is created not by create new view type,
-        // but by composing two view (add.reduce + divide) instead
+        if constexpr (meta::is_maybe_v<array_t>) {
+            using result_type = decltype(mean(unwrap(array),axis,dtype,keepdims));
+            using return_type = meta::conditional_t<meta::is_maybe_v<result_type>
+                , result_type, nmtools_maybe<result_type>
+            >;
+            return (has_value(array)
+                ? return_type{mean(unwrap(array),axis,dtype,keepdims)}
+                : return_type{meta::Nothing}
+            );
+        } else {
+            // note that this mean view is created not by create new view type,
+            // but by composing two view (add.reduce + divide) instead
 
-        // TODO: propagate error handling
-        auto shape = unwrap(::nmtools::shape<true>(array));
-        auto dim   = unwrap(::nmtools::dim<true>(array));
-        // TODO: error handling
-        auto m_axis  = [&](){
-            if constexpr (is_none_v<axis_t>) {
-                return axis;
-            } else {
-                return unwrap(index::normalize_axis(axis,unwrap(dim)));
-            }
-        }();
-        auto divisor = detail::mean_divisor(unwrap(shape),m_axis);
-        using divisor_t = decltype(divisor);
-        using element_t = meta::get_element_type_t<array_t>;
-        auto dtype_  = [&](){
-            if constexpr (is_none_v<dtype_t>) {
-                // explicitly promote using mean promotion rule
-                using dtype = meta::promote_types_t<meta::promote_mean,element_t,divisor_t>;
-                return dtype{};
-            } else {
-                return dtype;
-            }
-        }();
-        auto initial = None;
-        // TODO: proper type promotions
-        auto reduced = reduce_add(array,m_axis,dtype_,initial,keepdims);
-        #if 0
-        // failed on clang with no-stl config, but okay on gcc with no-stl config 🤷
-        auto mean_   = divide(reduced,divisor);
-        return mean_;
-        #else
-        return divide(reduced,divisor);
-        #endif
+            // TODO: propagate error handling
+            auto shape = unwrap(::nmtools::shape<true>(array));
+            auto dim   = unwrap(::nmtools::dim<true>(array));
+            // TODO: error handling
+            auto m_axis  = [&](){
+                if constexpr (is_none_v<axis_t>) {
+                    return axis;
+                } else {
+                    return unwrap(index::normalize_axis(axis,unwrap(dim)));
+                }
+            }();
+            auto divisor = detail::mean_divisor(unwrap(shape),m_axis);
+            using divisor_t = decltype(divisor);
+            using element_t = meta::get_element_type_t<array_t>;
+            auto dtype_  = [&](){
+                if constexpr (is_none_v<dtype_t>) {
+                    // explicitly promote using mean promotion rule
+                    using dtype = meta::promote_types_t<meta::promote_mean,element_t,divisor_t>;
+                    return dtype{};
+                } else {
+                    return dtype;
+                }
+            }();
+            auto initial = None;
+            // TODO: proper type promotions
+            auto reduced = reduce_add(array,m_axis,dtype_,initial,keepdims);
+            #if 0
+            // failed on clang with no-stl config, but okay on gcc with no-stl config 🤷
+            auto mean_   = divide(reduced,divisor);
+            return mean_;
+            #else
+            return divide(reduced,divisor);
+            #endif
+        }
     } // mean
 } // namespace nmtools::view
 
